@@ -41,6 +41,7 @@ from . import common
 from .c01 import SPECS, same, quiet, brief, query_variants, SKIP_QUERIES, skip_now, public_queries
 from . import c06_wide
 from . import c06_attr
+from . import c06_window
 
 
 def snap(v):
@@ -288,6 +289,8 @@ def _run(ctx, eff, own_tables, watch):
     c06_attr.coverage(ctx, eff, SPECS, used,
                       {c: {m for m in ms if m not in used.get(c, ())} for c, ms in raised.items()})
 
+    watch.context = "window tie"
+    c06_window.window_tie(ctx, eff, quick)
     constructors(ctx)
     array_functions(ctx)
     c06_wide.kernel_drive(ctx, watch)
